@@ -84,6 +84,10 @@ def _truth(rng, spec, cls):
         for a in range(dim):
             if spec["periodic"][a]:
                 pos[a] = rng.uniform(b[a, 0] - 0.5 * L[a], b[a, 1] + 0.5 * L[a])
+            elif rng.random() < 0.1:
+                # a droplet that is only partly visible: its centre lies beyond a wall of the image
+                out = rng.uniform(0.0, 0.6) * R
+                pos[a] = b[a, 0] - out if rng.random() < 0.5 else b[a, 1] + out
             else:
                 lo, hi = b[a, 0] + R + hm, b[a, 1] - R - hm
                 pos[a] = rng.uniform(lo, hi) if lo < hi else (b[a, 0] + b[a, 1]) / 2
